@@ -12,6 +12,11 @@ for name in sorted(os.listdir(os.path.join(VERIF, 'seeded'))):
         continue
     meta = json.load(open(os.path.join(d, 'meta.json')))
     res = json.load(open(os.path.join(d, 'result.json'))) if os.path.exists(os.path.join(d, 'result.json')) else {}
+    import glob as _g
+    others = []
+    for f in _g.glob(os.path.join(d, 'result-*.json')):
+        o = json.load(open(f))
+        others += [c for c in o.get('caught_by', []) if c != meta.get('property')]
     run = (res.get('runs') or [{}])[0]
     viol = [l for l in run.get('lines', []) if l.startswith('VIOLATION')]
     how = ''
@@ -23,8 +28,15 @@ for name in sorted(os.listdir(os.path.join(VERIF, 'seeded'))):
     needs = re.sub(r'\s+', ' ', str(meta.get('needs_to_manifest', ''))).replace('|', '/')
     if len(needs) > 110:
         needs = needs[:107] + '…'
+    verdict = "caught (" + how + ")" if res.get("caught") else ("MISSED" if res else "not run")
+    if meta.get('kind') == 'refactor':
+        verdict = ('silent, as it must be' if res.get('silent') else 'FALSE ALARM') if res else 'not run'
+    if others:
+        verdict += '; caught by ' + ', '.join(sorted(set(others)))
+    if meta.get('status_note'):
+        verdict = 'n/a now — ' + meta['status_note'][:160].replace('|', '/') + '…'
     rows.append(f'| {name} | {meta.get("property")} | {meta.get("site", "")} | {summary} | {needs} | '
-                f'{"caught (" + how + ")" if res.get("caught") else ("MISSED" if res else "not run")} | '
+                f'{verdict} | '
                 f'{res.get("repo_head", "")} |')
 table = ('| Seeded change | Property | Site | What it does | Needs, to manifest | `./check` (quick) | /repo HEAD |\n'
          '|---|---|---|---|---|---|---|\n' + '\n'.join(rows))
